@@ -50,6 +50,26 @@ static double injc_v[64];
 static int ninjc = 0;
 static long nccalls = 0;
 static int quiet_x = 0;
+static int negobj = 0;
+/* reduced-problem mode (C11): the callbacks receive the free coordinates only and embed them in the full point */
+static unsigned full_n = 0;
+static double fixval[64];
+static int isfixed[64];
+static double fullx[64], fullg[64];
+
+static const double *embed(unsigned n, const double *x)
+{
+    unsigned i, j = 0;
+    if (!full_n) return x;
+    for (i = 0; i < full_n; ++i) fullx[i] = isfixed[i] ? fixval[i] : (j < n ? x[j++] : 0.0);
+    return fullx;
+}
+
+static void gather(unsigned n, const double *gfull, double *g)
+{
+    unsigned i, j = 0;
+    for (i = 0; i < full_n; ++i) if (!isfixed[i] && j < n) g[j++] = gfull[i];
+}
 
 static double hook_seconds(void) { return vclock; }
 static unsigned long hook_time_seed(void) { return 12345UL; }
@@ -191,16 +211,19 @@ static void maybe_stop(void)
     }
 }
 
-static double objective(unsigned n, const double *x, double *grad, void *data)
+static double objective(unsigned n_, const double *x_, double *grad_, void *data)
 {
     fdata_t *d = (fdata_t *) data;
     unsigned i;
     double v = 0;
     int k;
+    unsigned n = full_n ? full_n : n_;
+    const double *x = embed(n_, x_);
+    double *grad = (full_n && grad_) ? fullg : grad_;
     ++ncalls; ++nobj;
     vclock += clockq;
     if (!d || d->magic != 0xC0FFEEu || d->role != 0) fprintf(out, "A bad objective data pointer\n");
-    if (n != expect_n) fprintf(out, "A objective n=%u expected %u\n", n, expect_n);
+    if (n_ != expect_n) fprintf(out, "A objective n=%u expected %u\n", n_, expect_n);
     switch (objkind) {
     case 0:
         for (i = 0; i < n; ++i) { double t = x[i] - oc[i % oc_n], w = 1 + 0.5 * i; v += w * t * t; if (grad) grad[i] = 2 * w * t; }
@@ -235,48 +258,56 @@ static double objective(unsigned n, const double *x, double *grad, void *data)
         for (i = 0; i < n; ++i) { double t = x[i] - oc[i % oc_n]; v += (i + 1) * t; if (grad) grad[i] = (double) (i + 1); }
     }
     for (k = 0; k < ninj; ++k) if (inj_k[k] == nobj) v = inj_v[k];
-    fprintf(out, "U f g=%d x=", grad != NULL);
-    if (!quiet_x) phexlist(out, x, (int) n);
+    if (negobj) { v = -v; if (grad) for (i = 0; i < n; ++i) grad[i] = -grad[i]; }
+    if (full_n && grad_) gather(n_, grad, grad_);
+    fprintf(out, "U f g=%d x=", grad_ != NULL);
+    if (!quiet_x) phexlist(out, x_, (int) n_);
     fprintf(out, " val="); phex(out, v);
-    if (grad) { fprintf(out, " grad="); phexlist(out, grad, (int) n); }
+    if (grad_) { fprintf(out, " grad="); phexlist(out, grad_, (int) n_); }
     fprintf(out, "\n");
     maybe_stop();
     return v;
 }
 
-static double sconstraint(unsigned n, const double *x, double *grad, void *data)
+static double sconstraint(unsigned n_, const double *x_, double *grad_, void *data)
 {
     fdata_t *d = (fdata_t *) data;
     double v;
     int k;
+    unsigned n = full_n ? full_n : n_;
+    const double *x = embed(n_, x_);
+    double *grad = (full_n && grad_) ? fullg : grad_;
     ++ncalls; ++nccalls;
     if (!d || d->magic != 0xC0FFEEu || d->vec) fprintf(out, "A bad constraint data pointer\n");
-    if (n != expect_n) fprintf(out, "A constraint n=%u expected %u\n", n, expect_n);
+    if (n_ != expect_n) fprintf(out, "A constraint n=%u expected %u\n", n_, expect_n);
     v = cval(d->ck, d->b, d->j0, n, x, grad);
     for (k = 0; k < ninjc; ++k) if (injc_k[k] == nccalls) v = injc_v[k];
-    fprintf(out, "U c role=%d i=%d g=%d x=", d->role, d->index, grad != NULL);
-    if (!quiet_x) phexlist(out, x, (int) n);
+    if (full_n && grad_) gather(n_, grad, grad_);
+    fprintf(out, "U c role=%d i=%d g=%d x=", d->role, d->index, grad_ != NULL);
+    if (!quiet_x) phexlist(out, x_, (int) n_);
     fprintf(out, " val="); phex(out, v);
-    if (grad) { fprintf(out, " grad="); phexlist(out, grad, (int) n); }
+    if (grad_) { fprintf(out, " grad="); phexlist(out, grad_, (int) n_); }
     fprintf(out, "\n");
     maybe_stop();
     return v;
 }
 
-static void mconstraint(unsigned m, double *result, unsigned n, const double *x, double *grad, void *data)
+static void mconstraint(unsigned m, double *result, unsigned n_, const double *x_, double *grad, void *data)
 {
     fdata_t *d = (fdata_t *) data;
     unsigned j;
     int k;
+    unsigned n = full_n ? full_n : n_;
+    const double *x = embed(n_, x_);
     ++ncalls; ++nccalls;
     if (!d || d->magic != 0xC0FFEEu || !d->vec) fprintf(out, "A bad mconstraint data pointer\n");
-    if (n != expect_n) fprintf(out, "A mconstraint n=%u expected %u\n", n, expect_n);
+    if (n_ != expect_n) fprintf(out, "A mconstraint n=%u expected %u\n", n_, expect_n);
     if ((int) m != d->m) fprintf(out, "A mconstraint m=%u expected %d\n", m, d->m);
     for (j = 0; j < m; ++j)
         result[j] = cval(d->ck, d->b + 0.1 * j, d->j0 + (int) j, n, x, grad ? grad + j * n : NULL);
     for (k = 0; k < ninjc; ++k) if (injc_k[k] == nccalls) result[0] = injc_v[k];
     fprintf(out, "U m role=%d i=%d g=%d x=", d->role, d->index, grad != NULL);
-    if (!quiet_x) phexlist(out, x, (int) n);
+    if (!quiet_x) phexlist(out, x_, (int) n_);
     fprintf(out, " val="); phexlist(out, result, (int) m);
     if (grad) { fprintf(out, " grad="); phexlist(out, grad, (int) (m * n)); }
     fprintf(out, "\n");
@@ -366,6 +397,20 @@ static void one_run(const char *line)
     expect_n = n;
     objkind = (int) getint(line, "obj", 0);
     quiet_x = (int) getint(line, "quietx", 0);
+    negobj = (int) getint(line, "negobj", 0);
+    full_n = (unsigned) getint(line, "full_n", 0);
+    if (full_n && (v = getkey(line, "fix", b, sizeof b))) {
+        /* fix=i:hex,i:hex */
+        const char *q = v;
+        memset(isfixed, 0, sizeof isfixed);
+        while (*q) {
+            char *e;
+            long i = strtol(q, &e, 10);
+            if (*e != ':') break;
+            if (i >= 0 && i < 64) { isfixed[i] = 1; fixval[i] = u2d(strtoull(e + 1, &e, 16)); }
+            q = e; if (*q == ',') ++q;
+        }
+    }
     clockq = gethex(line, "clockq", 0.0);
     stopat = getint(line, "stopat", -1);
     use_set_force = (int) getint(line, "setforce", 0);
